@@ -7,10 +7,16 @@ use serde_json::json;
 
 const MODES: [&str; 4] = ["custom", "global", "semiglobal", "local"];
 
+#[derive(Clone)]
 enum Al {
-    Tab(Aligner<Box<dyn Fn(u8, u8) -> i32>>),
+    Tab(Aligner<TabFn>),
     Par(Aligner<MatchParams>),
 }
+
+// pseudo modes: operations on the object itself (no alignment is computed)
+const OP_CLONE: usize = 10;
+const OP_CLONE_FROM: usize = 11;
+const OP_SERDE: usize = 12;
 
 fn make(alpha: &[u8], sc: &Scheme, how: u64, cap: (usize, usize)) -> Al {
     match (sc.simple, how % 2) {
@@ -27,13 +33,15 @@ fn make(alpha: &[u8], sc: &Scheme, how: u64, cap: (usize, usize)) -> Al {
             })
         }
         _ => {
-            let al = alpha.to_vec();
-            let tab = sc.table.clone();
-            let f: Box<dyn Fn(u8, u8) -> i32> = Box::new(move |a: u8, b: u8| {
-                let i = al.iter().position(|&x| x == a).unwrap();
-                let j = al.iter().position(|&x| x == b).unwrap();
-                tab[i][j]
-            });
+            let f = TabFn { al: alpha.to_vec(), tab: sc.table.clone() };
+            if sc.clip == [MIN_SCORE; 4] && how % 3 == 2 {
+                // the constructors without a Scoring argument
+                return Al::Tab(if how % 4 == 1 {
+                    Aligner::new(sc.go, sc.ge, f)
+                } else {
+                    Aligner::with_capacity(cap.0, cap.1, sc.go, sc.ge, f)
+                });
+            }
             let mut s = Scoring::new(sc.go, sc.ge, f);
             // the public hint field need not describe match_fn (the banded aligner only seeds with it)
             if how % 3 == 0 {
@@ -61,7 +69,61 @@ fn run(log: &mut Log, tag: &str, alpha: &[u8], sc: &Scheme, how: u64, cap: (usiz
         return;
     }
     let mut al = make(alpha, sc, how, cap);
-    for (mode, x, y, wit) in calls {
+    for (ci, (mode, x, y, wit)) in calls.iter().enumerate() {
+        if *mode >= OP_CLONE {
+            // the object is replaced by a copy of itself; everything after this runs on the copy
+            let name = match *mode {
+                OP_CLONE => "clone",
+                OP_CLONE_FROM => "clone_from",
+                _ => "serde",
+            };
+            let r = log.call(name, json!({}), || {
+                match *mode {
+                    OP_CLONE => {
+                        let c = al.clone();
+                        al = c;
+                    }
+                    OP_CLONE_FROM => {
+                        // another aligner with its own scheme, capacity and one call of history
+                        let mut sc2 = sc.clone();
+                        for (i, c) in sc2.clip.iter_mut().enumerate() {
+                            *c = [0, -1, -2, MIN_SCORE, -7][(ci + i + (how as usize)) % 5];
+                        }
+                        sc2.go -= 1;
+                        let mut other = make(alpha, &sc2, how, (cap.1 + 2, cap.0 + 1));
+                        match &mut other {
+                            Al::Tab(o) => {
+                                o.semiglobal(&alpha[..1], alpha);
+                            }
+                            Al::Par(o) => {
+                                o.semiglobal(&alpha[..1], alpha);
+                            }
+                        }
+                        match (&mut other, &al) {
+                            (Al::Tab(o), Al::Tab(a)) => o.clone_from(a),
+                            (Al::Par(o), Al::Par(a)) => o.clone_from(a),
+                            (o, a) => *o = a.clone(),
+                        }
+                        al = other;
+                    }
+                    _ => {
+                        if let Al::Par(a) = &al {
+                            let txt = serde_json::to_string(a).unwrap();
+                            let back: Aligner<MatchParams> = serde_json::from_str(&txt).unwrap();
+                            al = Al::Par(back);
+                        } else {
+                            let c = al.clone();
+                            al = c;
+                        }
+                    }
+                }
+                json!({})
+            });
+            if r["st"] != "ok" {
+                return;
+            }
+            continue;
+        }
         let mut args = json!({"x": syms(alpha, x), "y": syms(alpha, y)});
         if let Some(w) = wit {
             args["wit"] = w.clone();
@@ -200,6 +262,20 @@ pub fn drive(log: &mut Log) {
         }
         if sc.ge == 0 {
             log.oblige("gap_extend_zero");
+        }
+        // a third of the runs copy the object in the middle of its history (clone / clone_from another
+        // aligner / serde round trip) and go on with the copy
+        if rng.chance(1, 3) {
+            let at = rng.range(1, calls.len() as i64 - 1) as usize;
+            let op = [OP_CLONE, OP_CLONE_FROM, OP_SERDE][rng.below(3) as usize];
+            log.oblige(["clone_mid_history", "clone_from_other_aligner", "serde_round_trip"][op - OP_CLONE]);
+            calls.insert(at, (op, vec![], vec![], None));
+            // and a clip-sensitive custom call right behind it
+            let x = rng.seq(4, alpha);
+            let mut y = rng.seq(3, alpha);
+            y.extend_from_slice(&x);
+            y.extend(rng.seq(3, alpha));
+            calls.insert(at + 1, (0, x, y, None));
         }
         let cap = (rng.range(0, 16) as usize, rng.range(0, 16) as usize);
         run(log, "rnd", alpha, &sc, case, cap, &calls);
